@@ -121,6 +121,8 @@ class FnTr:
                 return ("table", cn)
         if obj is core.UBX_MSGIDS:
             return ("msgids", None)
+        if obj is core.UBX_CLASSES:
+            return ("classes", None)
         import pyubx2.ubxvariants as uv
         if obj is uv.VARIANTS:
             return ("variants", None)
@@ -196,6 +198,33 @@ class FnTr:
             b2, a2 = self.E(e.right, env)
             t = self.fresh()
             return b1 + b2 + [(t, "%s %s %s" % (ops[type(e.op)], a1, a2))], t
+        if isinstance(e, ast.JoinedStr):
+            bs, acc = [], None
+            for part in e.values:
+                if isinstance(part, ast.Constant) and isinstance(part.value, str):
+                    a = lit(part.value)
+                elif isinstance(part, ast.FormattedValue) and part.conversion == -1:
+                    b, a0 = self.E(part.value, env)
+                    bs += b
+                    spec = part.format_spec
+                    if spec is None:
+                        fn = "g_fmt_str"
+                    elif (isinstance(spec, ast.JoinedStr) and len(spec.values) == 1 and isinstance(spec.values[0], ast.Constant)
+                          and spec.values[0].value == "02x"):
+                        fn = "g_fmt_02x"
+                    else:
+                        raise Untranslatable("%s: format specification" % self.node.name)
+                    a = self.fresh()
+                    bs.append((a, "%s %s" % (fn, a0)))
+                else:
+                    raise Untranslatable("%s: f-string part" % self.node.name)
+                if acc is None:
+                    acc = a
+                else:
+                    t = self.fresh()
+                    bs.append((t, "g_add %s %s" % (acc, a)))
+                    acc = t
+            return bs, (acc if acc is not None else lit(""))
         if isinstance(e, (ast.Compare, ast.BoolOp)) or (isinstance(e, ast.UnaryOp) and isinstance(e.op, ast.Not)):
             c = self.C(e, env)
             t = self.fresh()
@@ -226,10 +255,10 @@ class FnTr:
             return [(t, "kwget k %s" % coq_str(s.value))], t
         if isinstance(v, ast.Name) and v.id not in env and v.id not in self.assigned and v.id not in self.params:
             k, cn = self.resolve(v.id)
-            if k in ("table", "msgids"):
+            if k in ("table", "msgids", "classes"):
                 b, a = self.E(s, env)
                 t = self.fresh()
-                return b + [(t, ("g_tab %s %s" % (cn, a)) if k == "table" else ("g_msgids %s" % a))], t
+                return b + [(t, ("g_tab %s %s" % (cn, a)) if k == "table" else ("g_msgids %s" % a) if k == "msgids" else ("g_classes %s" % a))], t
         b0, a0 = self.E(v, env)
         if isinstance(s, ast.Slice):
             if s.step is not None:
@@ -244,6 +273,12 @@ class FnTr:
 
     def call(self, e, env):
         f = e.func
+        if (isinstance(e, ast.Call) and isinstance(e.func, ast.Attribute) and e.func.attr == "from_bytes"
+                and isinstance(e.func.value, ast.Name) and e.func.value.id == "int" and "int" not in env
+                and len(e.args) == 2 and not e.keywords and isinstance(e.args[1], ast.Constant) and e.args[1].value == "little"):
+            b, a = self.E(e.args[0], env)
+            t = self.fresh()
+            return b + [(t, "g_int_from_le %s" % a)], t
         if (isinstance(f, ast.Attribute) and f.attr == "get" and isinstance(f.value, ast.Subscript)
                 and isinstance(f.value.value, ast.Name) and f.value.value.id not in env
                 and f.value.value.id not in self.assigned and self.resolve(f.value.value.id)[0] == "variants"
@@ -332,6 +367,9 @@ class FnTr:
                 b1, a1 = self.E(l, env)
                 if isinstance(r, ast.Tuple):
                     b2, atoms = self.Es(r.elts, env)
+                elif isinstance(r, ast.Name) and r.id not in env and r.id not in self.assigned and self.resolve(r.id)[0] == "classes":
+                    t = self.fresh("b")
+                    return "(" + self.wrap(b1, "do %s <- g_in_classes %s; Ok (%s)" % (t, a1, ("negb %s" % t) if neg else t)) + ")"
                 elif isinstance(r, ast.Name) and r.id not in env and r.id not in self.assigned:
                     k, v = self.resolve(r.id)
                     if k != "const" or not isinstance(v, tuple):
@@ -494,7 +532,7 @@ class FnTr:
         if s.orelse or s.finalbody or len(s.handlers) != 1 or not isinstance(s.handlers[0].type, ast.Name):
             raise Untranslatable("%s: try statement shape" % self.node.name)
         if not self.always_exits(s.body):
-            raise Untranslatable("%s: try body that can fall through" % self.node.name)
+            return self.try_through(s, env, k)
         kind, cn = self.resolve(s.handlers[0].type.id)
         if kind != "exn":
             raise Untranslatable("%s: except %s" % (self.node.name, s.handlers[0].type.id))
@@ -503,6 +541,58 @@ class FnTr:
         hname = "let v_%s := gnone in\n" % s.handlers[0].name if s.handlers[0].name else ""
         handler = self.block(s.handlers[0].body, henv, k)
         return "g_catch (\n%s\n) %s (\n%s%s\n)" % (body, cn, hname, handler)
+
+    def assigned_all_paths(self, stmts):
+        """Names assigned on every path through stmts that reaches their end."""
+        out = set()
+        for st in stmts:
+            if isinstance(st, ast.Assign):
+                out |= {t.id for t in st.targets if isinstance(t, ast.Name)}
+            elif isinstance(st, ast.AugAssign) and isinstance(st.target, ast.Name):
+                out.add(st.target.id)
+            elif isinstance(st, ast.If):
+                a, b = self.assigned_all_paths(st.body), self.assigned_all_paths(st.orelse)
+                if self.always_exits(st.body):
+                    out |= b
+                elif self.always_exits(st.orelse):
+                    out |= a
+                else:
+                    out |= (a & b)
+        return out
+
+    def try_through(self, s, env, k):
+        """try: B  except E: H   where B and H fall through: the names both assign on all their paths are handed to what
+        follows; every other name either of them assigns is no longer usable afterwards (its value would depend on
+        where B was interrupted); H may not read what B assigns."""
+        if any(isinstance(n, ast.Return) for part in (s.body, s.handlers[0].body) for st in part for n in ast.walk(st)):
+            raise Untranslatable("%s: return inside a try that can fall through" % self.node.name)
+        if s.handlers[0].name:
+            raise Untranslatable("%s: `except ... as name` in a try that can fall through" % self.node.name)
+        kind, cn = self.resolve(s.handlers[0].type.id)
+        if kind != "exn":
+            raise Untranslatable("%s: except %s" % (self.node.name, s.handlers[0].type.id))
+        def anyassigned(stmts):
+            return {t.id for st in stmts for n in ast.walk(st) for t in (getattr(n, "targets", []) + ([n.target] if isinstance(n, (ast.AugAssign, ast.For)) else []))
+                    if isinstance(t, ast.Name)}
+        wb, wh = anyassigned(s.body), anyassigned(s.handlers[0].body)
+        live = sorted(self.assigned_all_paths(s.body) & self.assigned_all_paths(s.handlers[0].body))
+        if not live:
+            raise Untranslatable("%s: try/except that hands nothing on" % self.node.name)
+        reads_h = {n.id for st in s.handlers[0].body for n in ast.walk(st) if isinstance(n, ast.Name) and isinstance(n.ctx, ast.Load)}
+        if reads_h & wb - wh:
+            raise Untranslatable("%s: the handler reads what the try body assigns" % self.node.name)
+        pat = "(%s)" % ", ".join("v_" + n for n in live) if len(live) > 1 else "v_" + live[0]
+
+        def done(env2):
+            if not all(n in env2 for n in live):
+                raise Untranslatable("%s: try/except live variables" % self.node.name)
+            return "Ok %s" % pat
+        henv = frozenset(x for x in env if x not in wb and x != "fresh:" and not (x.startswith("fresh:") and x[6:] in wb))
+        body = self.block(s.body, env, done)
+        handler = self.block(s.handlers[0].body, henv, done)
+        after = frozenset(x for x in env if x not in (wb | wh) and not (x.startswith("fresh:") and x[6:] in (wb | wh))) | set(live)
+        st = self.fresh("st")
+        return "do %s <- g_try (\n%s\n) %s (\n%s\n);\nlet '%s := %s in\n%s" % (st, body, cn, handler, pat, st, k(after))
 
     def message_ok(self, a, env):
         """The message of an exception: constants and f-strings over bound locals / constants / max, min, len, -, +."""
@@ -613,7 +703,8 @@ def targets(with_selectors=True):
             ("pyubx2.ubxmessage", "UBXMessage.__setattr__", "py_setattr", "(s__immutable v_name v_value : gv)"),
             ("pyubx2.ubxmessage", "UBXMessage.__delattr__", "py_delattr", "(s__immutable v_name : gv)"),
             ("pyubx2.ubxmessage", "UBXMessage.serialize", "py_serialize", "(s__checksum s__length s__payload s__ubxClass s__ubxID : gv)"),
-            ("pyubx2.ubxmessage", "UBXMessage._get_dict", "py_get_dict", "(s__mode s__ubxClass s__ubxID s_identity : gv) (k : kwargs)")]
+            ("pyubx2.ubxmessage", "UBXMessage._get_dict", "py_get_dict", "(s__mode s__ubxClass s__ubxID s_identity : gv) (k : kwargs)"),
+            ("pyubx2.ubxmessage", "UBXMessage.identity", "py_identity", "(s__payload s__ubxClass s__ubxID : gv)")]
     return out, sorted(sel)
 
 
